@@ -69,7 +69,7 @@ def main():
             os.makedirs(os.path.dirname(dst), exist_ok=True)
             shutil.copy(os.path.join(src, "demo", f), dst)
             demo_files.append(os.path.join(demo_dir_in_repo, f))
-        cmd = re.sub(r"/tmp/wt/[a-f]\d+", wt, meta.get("demo_cmd", "")).replace("<worktree>", wt)
+        cmd = re.sub(r"/tmp/wt/[a-h]\d+", wt, meta.get("demo_cmd", "")).replace("<worktree>", wt)
         out["demo_cmd"] = re.sub(re.escape(wt), "<worktree>", cmd)
         out["demo_files"] = demo_files
         rc1, o1 = sh(cmd, cwd=wt, timeout=900)
